@@ -1,6 +1,6 @@
 """C19 — codecs, checksums, MD5, AES (DESIGN §4 C19)."""
 from tbxlint.facts import extract, AnalysisBroken, MODULES
-from tbxlint import locks, q, refs, ival, rd
+from tbxlint import locks, q, refs, ival, rd, absint
 
 SCOPE = ['util/base64.cpp', 'util/string.cpp', 'util/scalable_integer.cpp', 'util/serializer.cpp', 'util/crc.cpp', 'util/checksum.cpp',
          'http/url.cpp', 'crypto/md5.cpp', 'crypto/aes.cpp']
@@ -391,6 +391,49 @@ def r5(ctx, prog):
         raise AnalysisBroken('expected 2 Base64 Decode loops using DecodeChar, found %d' % n)
 
 
+def r6(ctx, prog):
+    ctx.rule('C19.R6', 'A10 (interval abstract interpretation): the one\'s-complement 16-bit checksum never loses a carry: every addition into its accumulator '
+             'stays inside the accumulator\'s type for inputs of any length (a wrapped 32-bit sum drops an end-around carry)', floor=2)
+    f = prog.fn1('tbox::util::CalcCheckSum16')
+    it = absint.Interp(f).run()
+    n = 0
+    for st in f.stmts:
+        if not st:
+            continue
+        tgt = None
+        if st['k'] == 'CompoundAssignOperator' and st.get('op') in ('+=', '*=', '<<='):
+            tgt, val = st['ch'][0], st['i']
+        elif st['k'] == 'BinaryOperator' and st.get('op') == '=':
+            rhs = f.s(f.strip_casts(st['ch'][1]))
+            if rhs is not None and rhs['k'] == 'BinaryOperator' and rhs.get('op') in ('+', '*', '<<'):
+                tgt, val = st['ch'][0], st['ch'][1]
+        if tgt is None:
+            continue
+        x = f.s(f.strip_casts(tgt))
+        if not (x and x['k'] == 'DeclRefExpr' and x.get('d') in it.types) or '*' in (x.get('ct') or x.get('t') or '') or it.types[x['d']][1] < 65535:
+            continue
+        env = it.at(st['i'])
+        if env is None:
+            continue
+        n += 1
+        iv = it.arith(env, val)
+        tr = it.types[x['d']]
+        ok = iv is not None and tr[0] <= iv[0] and iv[1] <= tr[1]
+        if not ok and tr[1] >= 2**64 - 1 and st['k'] == 'CompoundAssignOperator' and st['op'] == '+=':
+            add = it.arith(env, st['ch'][1])
+            if add is not None and 0 <= add[0] and add[1] <= 0xffff:
+                # a 64-bit accumulator that grows by at most one 16-bit word per two input bytes cannot wrap for any object that fits in memory
+                ctx.ob('C19.R6', '%s|%s@%s' % (f.name, f.path(tgt), f.loc(st['i']).split(':')[-1]), True,
+                       '64-bit accumulator, +<=0xffff per input word: cannot wrap for inputs shorter than 2^47 words (assumption: objects fit the address space)', where=f.loc(st['i']))
+                continue
+        ctx.ob('C19.R6', '%s|%s@%s' % (f.name, f.path(tgt), f.loc(st['i']).split(':')[-1]), ok,
+               'sum into %s stays within [%d, %d] (type holds %d)' % (f.path(tgt), iv[0], iv[1], tr[1]) if ok else
+               'sum into %s can reach %s, beyond its type (max %d): the accumulator wraps on long inputs and an end-around carry is lost' %
+               (f.path(tgt), 'an unbounded value' if iv is None else iv[1], tr[1]), where=f.loc(st['i']))
+    if n < 2:
+        raise AnalysisBroken('CalcCheckSum16: expected >= 2 accumulator updates, saw %d' % n)
+
+
 def run(ctx):
     prog = extract('ALL' if ctx.tier == 'thorough' else SCOPE)
     ctx.guard(r1, ctx, prog)
@@ -398,4 +441,5 @@ def run(ctx):
     ctx.guard(r3, ctx, prog)
     ctx.guard(r4, ctx, prog)
     ctx.guard(r5, ctx, prog)
+    ctx.guard(r6, ctx, prog)
     return prog
